@@ -4,7 +4,7 @@ fragment lookup and of the conversion traits, compared with the layout the parse
 2 + vol(value); an array child occupies vol(child))."""
 import re
 
-from .. import linear, shape, static
+from .. import iset, linear, shape, static
 from ..absint import FALSE, Agg, Conc, Expr, Obj, Ref, Sym, Top, Undecided
 from ..summ import AIter, AVec
 
@@ -537,30 +537,149 @@ def conv_rule(ctx, res):
     except Undecided as e:
         res.violation(rule, rule + "/default/undecided", "while interpreting: %s" % e)
     # Vec<T> / BTreeMap<K, V>: elements converted at their mapped offsets: closures use item.offset / entry.value.value.offset
-    for rx, fields, what in ((r"^<std::vec::Vec<bool> as json_syntax::TryFromJson>::try_from_json_at$", ["offset"], "Vec<T>"),
-                             (r"^<std::collections::BTreeMap<std::string::String, BoolLeaf> as json_syntax::TryFromJson>::try_from_json_at$", ["offset"], "BTreeMap<K, V>")):
+    container_rule(ctx, res, rule, T, vt, vn)
+    res.floor(rule, "conversion_cases", 25)
+
+
+def container_rule(ctx, res, rule, T, vt, vn):
+    """Vec<T> / BTreeMap<K, V>: the conversion walks the container with the mapped iterator of the *same* value, code map
+    and offset, and converts every element (entry value) at the offset the iterator reports for it — the iterator's `next`
+    is scripted to yield two items with distinct symbolic offsets (for an entry: three distinct offsets for the entry, its key
+    and its value), the element conversion is a recorded cut point."""
+    from ..absint import CallThen
+    P = ctx.P
+    for rx, what, cont in ((r"^<std::vec::Vec<bool> as json_syntax::TryFromJson>::try_from_json_at$", "Vec<T>", "Array"),
+                           (r"^<std::collections::BTreeMap<std::string::String, BoolLeaf> as json_syntax::TryFromJson>::try_from_json_at$", "BTreeMap<K, V>", "Object")):
+        key = "%s/%s" % (rule, what)
         try:
             inst = shape.find_inst(P, rx)
-            fns = [inst] + [P.inst[i] for i in P.reachable([inst["id"]]) if P.inst[i]["path"].startswith(inst["path"] + "::{closure")]
-            found = False
-            for f in fns:
-                for bi, c, t in static.calls(P, f):
-                    if c is not None and c["name"].endswith("try_from_json_at") and c["id"] != inst["id"] and len(t["args"]) == 3:
-                        a2 = t["args"][2]
-                        pl = a2.get("copy") or a2.get("move")
-                        names = [e["n"] for e in (pl or {}).get("p", ()) if isinstance(e, dict) and "f" in e]
-                        o = static.origin(f, a2)
-                        onames = o[2] if o[0] in ("param", "local") else []
-                        if o[0] == "local" and onames[-1:] == ["offset"] and "value" in onames:
-                            found = True
-                        if o[0] == "call" and "IterMapped" in o[2].get("callee_name", "") and o[3][-1:] == ["offset"] and "value" in o[3]:
-                            found = True
-                        if (names[-1:] == ["offset"] and len(names) >= 1 and pl["l"] > f["arg_count"]) or (onames[-1:] == ["offset"] and f is not inst):
-                            found = True
-            res.ob(found, rule, "%s/%s/element-offset" % (rule, what), "%s must convert each element at the offset the mapped iterator reports for it" % what, sample={"container": what, "element_offset": "mapped offset"})
-            im = [c for f in fns for bi, c, t in static.calls(P, f) if c is not None and c["name"].endswith("iter_mapped")]
-            res.ob(len(im) >= 1, rule, "%s/%s/iter-mapped" % (rule, what), "%s must walk its elements with iter_mapped" % what)
+            sh = shape.Shape(P)
+            st0 = sh.st
+            off = sh.sym(kind="offset")
+            cm = sh.cell(Top(None, "code-map"))
+            payload = Top(vt["variants"][vn.index(cont)]["fields"][0]["ty"], "the-container")
+            me = sh.cell(Agg(vt["id"], vn.index(cont), [payload]))
+            script = {"n": 0, "items": []}
+
+            def ctor(it, st, c, a):
+                st.emit("iter_mapped", tuple(shape.deref(it, st, x, 2) if isinstance(x, Ref) else x for x in a), (), "iter_mapped")
+                return Top(shape.ret_ty(it, c), "the-mapped-iterator")
+
+            sh.cut(r"::iter_mapped$", "ctor", ret=ctor)
+
+            def mk_mapped(st, mty, value_builder):
+                t = P.types[mty]
+                names = [f["name"] for f in t["variants"][0]["fields"]]
+                o = st.fresh_sym(iset.full(64, False), kind="item-offset")
+                vals = {"offset": o, "value": value_builder(t["variants"][0]["fields"][names.index("value")]["ty"])}
+                return Agg(mty, 0, tuple(vals[n] for n in names)), o
+
+            def nxt(it, st, c, a):
+                rt = shape.ret_ty(it, c)
+                k = st.ctr.get("scripted", 0)
+                st.ctr["scripted"] = k + 1
+                if k >= 2:
+                    return Agg(rt, 0, ())
+                mty = P.types[rt]["variants"][1]["fields"][0]["ty"]
+
+                def value_of(ty):
+                    tt = P.types[ty]
+                    if tt["k"] == "adt" and tt.get("name") == "json_syntax::object::Entry":
+                        fn = [f["name"] for f in tt["variants"][0]["fields"]]
+                        parts = {}
+                        for fname in ("key", "value"):
+                            fty = tt["variants"][0]["fields"][fn.index(fname)]["ty"]
+                            cell = st.new_obj(Top(None, "%s%d" % (fname, k)))
+                            m, o_ = mk_mapped(st, fty, lambda _ty, _c=cell: Ref(("H", _c.id), ()))
+                            parts[fname] = m
+                            script["items"].append((k, fname, o_, Ref(("H", cell.id), ())))
+                        return Agg(ty, 0, tuple(parts[n] for n in fn))
+                    cell = st.new_obj(Top(None, "item%d" % k))
+                    script["items"].append((k, "item-ref", None, Ref(("H", cell.id), ())))
+                    return Ref(("H", cell.id), ())
+
+                m, o = mk_mapped(st, mty, value_of)
+                script["items"].append((k, "item", o, None))
+                return Agg(rt, 1, (m,))
+
+            sh.cut(r"^<json_syntax::(array|object)::IterMapped<'_, '_> as std::iter::Iterator>::next$", "next", ret=nxt)
+            sh.cut(r"^<(bool|BoolLeaf) as json_syntax::TryFromJson>::try_from_json_at$", "inner", ret=lambda it, st, c, a: Agg(shape.ret_ty(it, c), 0, (Top(None, "converted"),)))
+            sh.cut(r"^core::str::<impl str>::parse::<", "parse", ret=lambda it, st, c, a: Agg(shape.ret_ty(it, c), 0, (Top(None, "parsed-key"),)))
+            sh.cut(r"^std::collections::BTreeMap::<.*>::new$", "map_new", ret=lambda it, st, c, a: Top(shape.ret_ty(it, c), "the-map"))
+            sh.cut(r"^std::collections::BTreeMap::<.*>::insert$", "map_insert", ret=lambda it, st, c, a: Agg(shape.ret_ty(it, c), 0, ()))
+            sh.cut(r"^<smallstr::string::SmallString<\[u8; 16\]> as std::ops::Deref>::deref$", "key_deref", ret=lambda it, st, c, a: a[0])
+
+            # `iter.map(f).collect::<Result<Vec<_>, _>>()`: drive the (scripted) iterator and call the interpreted closure
+            def collect(it, st, inst_, args, call):
+                mp = args[0]
+                if not (isinstance(mp, Agg) and mp.ty is not None and P.types[mp.ty].get("name") == "std::iter::Map"):
+                    return NotImplemented
+                names = [f["name"] for f in P.types[mp.ty]["variants"][0]["fields"]]
+                f = mp.fields[names.index("f")]
+                ft = P.types[f.ty] if isinstance(f, Agg) and f.ty is not None else None
+                if not ft or ft["k"] != "closure":
+                    raise Undecided("collect over a map with an unknown function %r" % (f,))
+                from ..summ import closure_instance
+                ci = closure_instance(P, f.ty)
+                if ci is None:
+                    raise Undecided("closure of the element conversion not found")
+                bodies = [ci]
+                fcell = st.new_obj(f)
+                rt = shape.ret_ty(it, call)
+                nty = None
+
+                class Call:
+                    pass
+
+                def step(it_, st_, acc):
+                    # scripted next
+                    fake = {"frame": call["frame"], "term": call["term"]}
+                    k = st_.ctr.get("scripted", 0)
+                    if k >= 2:
+                        return Agg(rt, 0, (st_.new_obj(AVec(tuple(acc), "converted")),))
+                    item = nxt_for_collect(it_, st_)
+                    return CallThen(bodies[0], [Ref(("H", fcell.id), ()), item], lambda it2, st2, rv: step(it2, st2, acc + [rv]))
+
+                def nxt_for_collect(it_, st_):
+                    # the item type is the closure's parameter type
+                    body = P.inst[bodies[0]]
+                    ity = body["locals"][2]
+                    k = st_.ctr.get("scripted", 0)
+                    st_.ctr["scripted"] = k + 1
+                    cell = st_.new_obj(Top(None, "item%d" % k))
+                    script["items"].append((k, "item-ref", None, Ref(("H", cell.id), ())))
+                    m, o = mk_mapped(st_, ity, lambda _ty, _c=cell: Ref(("H", _c.id), ()))
+                    script["items"].append((k, "item", o, None))
+                    return m
+
+                return step(it, st, [])
+
+            sh.it.summaries.insert(0, (lambda i_: bool(re.search(r"as std::iter::Iterator>::collect::<std::result::Result<std::vec::Vec<", i_["name"])), collect))
+            outs = sh.run(inst, [me, cm, off])
+            rets = [o for o in outs if o.outcome and o.outcome[0] == "return"]
+            if len(outs) != 1 or len(rets) != 1:
+                raise Undecided("%d paths (%s)" % (len(outs), [o.outcome[0] if o.outcome else None for o in outs][:4]))
+            o = rets[0]
+            ev = o.events
+            ctors = [e for e in ev if e[0] == "iter_mapped"]
+            okc = len(ctors) == 1 and len(ctors[0][1]) == 3 and ctors[0][1][1] == shape.deref(sh.it, o, cm, 1) or (len(ctors) == 1 and ctors[0][1][2] == off)
+            okc = len(ctors) == 1 and ctors[0][1][-1] == off
+            res.ob(okc, rule, key + "/iter-mapped", "%s must walk its elements with the mapped iterator started at its own offset (calls %r)" % (what, [[repr(x)[:40] for x in c[1]] for c in ctors]),
+                   sample={"container": what, "walks_with": "iter_mapped(code_map, offset)"})
+            inner = [e for e in ev if e[0] == "inner"]
+            want = []
+            for k in (0, 1):
+                if cont == "Array":
+                    ref = [x[3] for x in script["items"] if x[0] == k and x[1] == "item-ref"]
+                    o_ = [x[2] for x in script["items"] if x[0] == k and x[1] == "item"]
+                else:
+                    ref = [x[3] for x in script["items"] if x[0] == k and x[1] == "value"]
+                    o_ = [x[2] for x in script["items"] if x[0] == k and x[1] == "value"]
+                want.append((ref[0] if ref else None, o_[0] if o_ else None))
+            got = [(e[1][0], e[1][2]) for e in inner]
+            res.ob(got == want, rule, key + "/element-offset",
+                   "%s must convert each element (entry value) at the offset the mapped iterator reports for it, in order; converts %r, expected %r" % (what, got, want),
+                   sample={"container": what, "element_offset": "the mapped item's own offset"})
             res.count("conversion_cases")
         except Undecided as e:
-            res.violation(rule, "%s/%s/missing" % (rule, what), str(e))
-    res.floor(rule, "conversion_cases", 25)
+            res.violation(rule, key + "/undecided", "while interpreting: %s" % e)
